@@ -821,6 +821,13 @@ func (fv *FuncVerifier) callWrites(env *Env, call *ast.CallExpr, ws *writeSet, d
 				return
 			case "fx":
 				return
+			case "closure":
+				for _, a := range call.Args {
+					if lit, ok := ast.Unparen(a).(*ast.FuncLit); ok {
+						fv.collectWrites(env, lit.Body, ws, depth+1)
+					}
+				}
+				return
 			case "syncmap":
 				for _, k := range []string{"$syncmap:keys", "$syncmap:vals"} {
 					ws.heap[k] = true
